@@ -11,6 +11,9 @@ def runParse (cfg : String) (inp : List String) (obs : List String) : Option Ver
   let (ra, rb) := splitBar (obs.map (fun t => if t == "||" then "|" else t))
   let rej := (judgeParse mode cmds inp obs ++ judgeParams cmds ra ++ (if mode == "P" then [] else judgeParams cmds rb)).eraseDups
   let tags := [mode] ++ parseTags obs
-  pure { modelObs := " ".intercalate mo, rejects := rej, nontrivial := obs.any (fun t => t.startsWith "H" || t.startsWith "E"), tags }
+  -- static-heap build: whether a text is stored depends on the heap (C20, domain H); the context model keeps every
+  -- text, so the drained queue is compared by codes only in that configuration
+  let strip := fun (t : String) => if cfg == "B" ∧ t.startsWith "D" then ",".intercalate ((t.splitOn ",").map (fun e => (e.splitOn ":").headD "")) else t
+  pure { modelObs := " ".intercalate (mo.map strip), implObs := some (" ".intercalate (obs.map strip)), rejects := rej, nontrivial := obs.any (fun t => t.startsWith "H" || t.startsWith "E"), tags }
 
 end ScpiVerif.Drv
